@@ -1,7 +1,7 @@
 //! C02 - header path context follows the SCPI compound-message rules.
 use simcore::exec::{Out, Sink};
 use simcore::rng::Rng;
-use simcore::spec::{Family, Model, IFACES};
+use simcore::spec::{Family, IFACES};
 use simcore::world::Ev;
 
 use super::common::{pick_iface, valid_history};
@@ -72,7 +72,7 @@ impl Prop for C02T {
     fn generate(&self, seed: u64, _thorough: bool) -> Scenario {
         let mut rng = Rng::new(seed);
         let (iface, cap) = pick_iface(&mut rng, &[Family::Tree]);
-        let m = Model::of(iface);
+        let m = simcore::spec::model(iface);
         let k = rng.range(1, 6);
         let max_units = rng.range(1, 5);
         // a quarter of the histories carry separators and newlines inside string /
